@@ -7,6 +7,9 @@ from nodegen import *
 from nodesim import parse_case, parse_result
 
 
+FAST_HERE = [129029, 127489, 130816, 126996, 131071, 130817]     # fast packets by the default / proprietary classification
+
+
 def gen_node(seed, tier):
     r = random.Random(seed * 7001 + 14)
     thorough = tier != 'quick'
@@ -15,7 +18,7 @@ def gen_node(seed, tier):
         ndev = r.choice([1, 2])
         mode = r.choice([2, 2, 1, 0, 4])
         src0 = 30
-        line = 'NODE mode=%d ndev=%d src=%d q=40 slots=%d t0=%d' % (mode, ndev, src0, r.choice([5, 8]), r.choice([5000, 4294967000]))
+        line = 'NODE mode=%d ndev=%d src=%d q=40 slots=%d t0=%d%s' % (mode, ndev, src0, r.choice([5, 8]), r.choice([5000, 4294967000]), r.choice(['', '', ' fwd=1', ' fwd=%d' % r.randrange(16)]))
         own = [own_addr(src0, i) for i in range(ndev)]
         ops = []
         nmsg = r.choice([1, 5, 19, 20, 21, 22, 40, 41, 45, r.randint(1, 60)])
@@ -23,17 +26,28 @@ def gen_node(seed, tier):
             x = r.random()
             sender = 60 + (k % 30)          # distinct senders so that reassembly slots never collide
             if x < 0.45:
-                pgn = r.choice(SINGLE_PGNS + [127245, 129026, 130312])
+                pgn = r.choice(SINGLE_PGNS + [127245, 129026, 130312, 127999, 65535, 130999 - 400])     # incl. PGNs on no list
                 dst = r.choice(own + [255, 99]) if ((pgn >> 8) & 0xff) < 240 else 255
                 ops += sender_stream(r, pgn, sender, dst, bytes([k & 255] + [r.randrange(256) for _ in range(r.randint(0, 7))]), fast=False)
             elif x < 0.6:
                 ops.append(iso_request(sender, r.choice(own + [255, 99]), r.choice([60928, 126996, 127250, 130816])))
             elif x < 0.7:
                 ops.append(claim(sender, r.getrandbits(63) | (1 << 63)))      # a higher NAME than ours on a foreign address
-            elif x < 0.9:
-                pgn = r.choice([129029, 127489, 130816, 126996])
+            elif x < 0.8:
+                pgn = r.choice(FAST_HERE)
                 fr = sender_stream(r, pgn, sender, 255, bytes([k & 255] + [r.randrange(256) for _ in range(r.choice([2, 9, 20]))]))
                 ops += fr
+            elif x < 0.9:
+                # one sender, one addressable fast-packet PGN, two destinations at the same time: two separate reassemblies
+                pgn = 126720
+                d1, d2 = r.sample(own + [255, 99, 98], 2)
+                fa = sender_stream(r, pgn, sender, d1, bytes([k & 255, 1] + [r.randrange(256) for _ in range(r.choice([9, 20]))]))
+                fb = sender_stream(r, pgn, sender, d2, bytes([k & 255, 2] + [r.randrange(256) for _ in range(r.choice([9, 20]))]))
+                while fa or fb:
+                    if fa and (not fb or r.random() < 0.5):
+                        ops.append(fa.pop(0))
+                    else:
+                        ops.append(fb.pop(0))
             else:
                 # ISO-TP broadcast (BAM) carrying a payload: control and data frames must not be delivered, the payload once
                 payload = bytes([k & 255] + [r.randrange(256) for _ in range(r.choice([9, 14, 20]))])
@@ -93,19 +107,19 @@ def complete_messages(ops):
                     exp.append((s[0], src, dst, tuple(s[2][:s[1]])))
                     del tp[(src, dst)]
             continue
-        if pgn in (129029, 127489, 130816, 126996):
+        if pgn in FAST_HERE + [126720]:
             if buf[0] & 31 == 0:
-                fp[(pgn, src)] = [buf[1], buf[2:8], dst, buf[0]]
-            elif (pgn, src) in fp:
-                if buf[0] != fp[(pgn, src)][3] + 1:       # lost / repeated frame: the message is discarded as a whole
-                    del fp[(pgn, src)]
+                fp[(pgn, src, dst)] = [buf[1], buf[2:8], dst, buf[0]]
+            elif (pgn, src, dst) in fp:
+                if buf[0] != fp[(pgn, src, dst)][3] + 1:       # lost / repeated frame: the message is discarded as a whole
+                    del fp[(pgn, src, dst)]
                     continue
-                fp[(pgn, src)][3] = buf[0]
-                fp[(pgn, src)][1] += buf[1:8]
-            s = fp.get((pgn, src))
+                fp[(pgn, src, dst)][3] = buf[0]
+                fp[(pgn, src, dst)][1] += buf[1:8]
+            s = fp.get((pgn, src, dst))
             if s and len(s[1]) >= s[0]:
                 exp.append((pgn, src, s[2], tuple(s[1][:s[0]])))
-                del fp[(pgn, src)]
+                del fp[(pgn, src, dst)]
             continue
         exp.append((pgn, src, dst, tuple(buf[:ln])))
     return exp
